@@ -948,6 +948,160 @@ func C19(c *Ctx) {
 		}
 	}
 	r.Floor("convert command call sites", ncli, 1)
+	cliHooks(c, f)
+}
+
+// amountArgRewrites: the stores by which g replaces the first element of a []string parameter (the amount argument of a
+// cobra hook: positional-argument validators and pre-run hooks share the slice the command's RunE receives) with anything but
+// the text it held (surrounding space and non-numeric separators aside). Elements at another constant index (the
+// denominations) are not the amount.
+func amountArgRewrites(c *Ctx, g *ssa.Function) []ssa.Instruction {
+	w := c.W
+	var out []ssa.Instruction
+	isArgs := func(v ssa.Value) bool {
+		for i := 0; i < 4; i++ {
+			if sl, ok := v.(*ssa.Slice); ok {
+				if sl.Low != nil {
+					if k, isC := sl.Low.(*ssa.Const); !isC || k.Value == nil || constant.Sign(k.Value) != 0 {
+						return false
+					}
+				}
+				v = sl.X
+				continue
+			}
+			break
+		}
+		p, ok := v.(*ssa.Parameter)
+		if !ok {
+			return false
+		}
+		st, ok := p.Type().Underlying().(*types.Slice)
+		if !ok {
+			return false
+		}
+		b, ok := st.Elem().Underlying().(*types.Basic)
+		return ok && b.Kind() == types.String
+	}
+	for _, b := range g.Blocks {
+		for _, in := range b.Instrs {
+			st, ok := in.(*ssa.Store)
+			if !ok {
+				continue
+			}
+			ia, ok := st.Addr.(*ssa.IndexAddr)
+			if !ok || !isArgs(ia.X) {
+				continue
+			}
+			if k, isC := ia.Index.(*ssa.Const); isC && k.Value != nil && constant.Sign(k.Value) != 0 {
+				continue
+			}
+			if !sameAmountText(w.Expand(w.ExprOf(st.Val), 3)) {
+				out = append(out, in)
+			}
+		}
+	}
+	return out
+}
+
+// cliHooks (A7.cli-amount|hook): the amount reaches the conversion as typed also when the command is given hooks. A
+// function of cmd/und/cmd handed on as a value where the convert command is built or wrapped (its constructor, every
+// function that calls the constructor), or stored into a Persistent* hook of any command (those run for every sub-command),
+// does not rewrite the amount argument: `cmd.Args = cobra.MatchAll(cobra.ExactArgs(3), normalise)` with a `normalise`
+// that stores FormatFloat(ParseFloat(args[0])) back into args[0] leaves RunE and the conversion function textually
+// untouched and rounds every amount beyond 2^53.
+func cliHooks(c *Ctx, conv *ssa.Function) {
+	w, r := c.W, c.R
+	ctors := map[*ssa.Function]bool{}
+	for _, ed := range w.Callers(conv) {
+		if strings.HasPrefix(fn(ed.From), "cmd/und/cmd.") {
+			top := ed.From
+			for top.Parent() != nil {
+				top = top.Parent()
+			}
+			ctors[top] = true
+		}
+	}
+	inCmd := func(g *ssa.Function) bool {
+		return g != nil && !ir.IsFixture(g) && strings.HasPrefix(fn(g), "cmd/und/cmd.")
+	}
+	holders := map[*ssa.Function]bool{}
+	for _, g := range w.Funcs {
+		if !inCmd(g) {
+			continue
+		}
+		top := g
+		for top.Parent() != nil {
+			top = top.Parent()
+		}
+		if ctors[top] {
+			holders[g] = true
+			continue
+		}
+		for _, b := range g.Blocks {
+			for _, in := range b.Instrs {
+				switch x := in.(type) {
+				case ssa.CallInstruction:
+					if sc := x.Common().StaticCallee(); sc != nil && ctors[sc] {
+						holders[g] = true
+					}
+				case *ssa.Store:
+					if fa, ok := x.Addr.(*ssa.FieldAddr); ok {
+						if st, ok := ptrElem(fa.X.Type()).Underlying().(*types.Struct); ok && strings.HasPrefix(st.Field(fa.Field).Name(), "Persistent") && strings.HasSuffix(ptrElem(fa.X.Type()).String(), "cobra.Command") {
+							holders[g] = true
+						}
+					}
+				}
+			}
+		}
+	}
+	var hooks []*ssa.Function
+	seen := map[*ssa.Function]bool{}
+	for g := range holders {
+		for _, b := range g.Blocks {
+			for _, in := range b.Instrs {
+				for _, op := range in.Operands(nil) {
+					if op == nil || *op == nil {
+						continue
+					}
+					var t *ssa.Function
+					switch v := (*op).(type) {
+					case *ssa.Function:
+						t = v
+					case *ssa.MakeClosure:
+						t, _ = v.Fn.(*ssa.Function)
+					}
+					if inCmd(t) && !seen[t] {
+						seen[t] = true
+						hooks = append(hooks, t)
+					}
+				}
+			}
+		}
+	}
+	sortFuncs(hooks)
+	n := 0
+	judged := map[*ssa.Function]bool{}
+	for _, h := range hooks {
+		for g := range w.Reachable([]*ssa.Function{h}) {
+			if !inCmd(g) || judged[g] {
+				continue
+			}
+			judged[g] = true
+			n++
+			for i, in := range amountArgRewrites(c, g) {
+				st := in.(*ssa.Store)
+				r.Bad("A7.cli-amount", fmt.Sprintf("hook|%s|%d", fn(g), i), pos(c, in), "no hook of the convert command rewrites the amount argument before the conversion sees it (at most surrounding space and non-numeric separators removed)", "args[0] = "+w.Expand(w.ExprOf(st.Val), 3).String())
+			}
+		}
+	}
+	r.Floor("functions handed on as values where the convert command is built, judged for rewriting the amount argument", n, 1)
+	hit := map[string]bool{}
+	for _, g := range w.Funcs {
+		if ir.IsFixture(g) && strings.Contains(fn(g), "fixtures/c19") && len(amountArgRewrites(c, g)) > 0 {
+			hit[g.Name()] = true
+		}
+	}
+	r.Control("A7.cli-amount|hook", "fixtures/c19", hit["RewritesAmount"] && !hit["TidiesArgs"])
 }
 
 func isFloatT(t types.Type) bool {
